@@ -205,6 +205,10 @@ func (c19) Gen(rng *rand.Rand, tier string, emit func(string)) {
 		c19GenGlue(rng, tier, emit)
 		return
 	}
+	if os.Getenv("VERIF_C19_ONLY") == "cons" { // development aid: the obiconsensus cases alone
+		c19GenCons(rng, tier, emit)
+		return
+	}
 	if os.Getenv("VERIF_C19_ONLY") == "kmc" { // development aid: the obikmermatch concurrent cases alone
 		c19GenKmc(rng, tier, emit)
 		return
@@ -341,6 +345,7 @@ func (c19) Gen(rng *rand.Rand, tier string, emit func(string)) {
 	c19GenHist(rng, tier, emit) // fourth pass: histories on one object (after conc: every earlier case keeps its draws)
 	c19GenGlue(rng, tier, emit) // glue pass: the commands of pkg/obitools/obikmersim (last: every earlier case keeps its draws)
 	c19GenKmc(rng, tier, emit)  // obikmermatch under concurrent use (c19_match.go; last: every earlier case keeps its draws)
+	c19GenCons(rng, tier, emit) // obiconsensus command level (c19_cons.go; last: every earlier case keeps its draws)
 }
 
 // one random graph case: k, reads derived from a template, counts
@@ -498,6 +503,10 @@ func (c19) Exec(c string) (string, []Fail) {
 	}
 	if f[0] == "ks" { // glue pass (c19_glue.go): the commands obikmersimcount / obikmermatch, their own watchdog
 		res := c19ExecGlue(f, fail)
+		return res, fails
+	}
+	if f[0] == "cons" { // short glue pass (c19_cons.go): obiconsensus.BuildConsensus, its own watchdog
+		res := c19ExecCons(f, fail)
 		return res, fails
 	}
 	if f[0] == "race" && len(f) > 1 && f[1] == "conc" { // the same through a -race build
